@@ -1031,6 +1031,11 @@ func c13ClientX(e *Env, forC14 bool, forced *c13Forced) {
 						dwaDue = true // a late answer would start another cycle, whose DWR queues behind the stalled write
 					}
 				}
+				for _, d := range w.delivered {
+					if strings.HasPrefix(d.what, "dwa") && d.at >= o.at {
+						dwaDue = true // it arrived right behind this transmission: the watchdog took it as the answer
+					}
+				}
 				if r == w.R && !appStalled && len(pending) == 0 && !dwaDue && t.Chance(1, 2) {
 					// the peer has also stopped reading: an application write on the same
 					// connection stalls after the watchdog's last transmission
